@@ -160,6 +160,23 @@ Proof.
     + split5; try reflexivity. exact H5.
 Qed.
 
+(* an entry of arbitrary frames written through the log (a write batch, or the statements of a SQL dump) *)
+Lemma write_frames_preserves s w :
+  Inv s ->
+  let s' := apply_phys (add_log s (EWrite w)) (EWrite w) in
+  Inv s' /\ live s' = apply_frames (live s) w.
+Proof.
+  intros (r & Hr & H2 & H3 & H4). cbn [apply_phys]. split.
+  - exists r. unfold set_dbf, add_log; st. split4.
+    + exact Hr.
+    + exact H2.
+    + unfold suffix, newest_idx in * ; st. rewrite skipn_snoc by exact H4.
+      rewrite replay_snoc. cbn [replay_entry]. unfold live; st.
+      rewrite apply_frames_app. apply apply_frames_congr. exact H3.
+    + unfold newest_idx in * ; st. rewrite app_length. cbn. lia.
+  - unfold live, set_dbf, add_log ; st. rewrite apply_frames_app. reflexivity.
+Qed.
+
 Lemma step_preserves s o :
   Inv s ->
   let s' := fst (step s o) in
